@@ -1,27 +1,33 @@
 #!/usr/bin/env python3
 """Runs the hand-written sensitivity mutants (DESIGN.md section 8) against the quick tier and tabulates the result.
    usage: tools/run_mutants.py [name-substring ...]   -> appends to tools/mutants/results.tsv"""
-import subprocess, sys, os, json, time
+import subprocess, sys, os, json, time, shutil, tempfile
 M = json.load(open(os.path.join(os.path.dirname(__file__), "mutants", "mutants.json")))
 sel = sys.argv[1:]
 def sh(c): return subprocess.run(c, shell=True, text=True, stdout=subprocess.PIPE, stderr=subprocess.STDOUT)
 assert sh("git -C /repo diff --quiet").returncode == 0, "/repo dirty"
 out = open(os.path.join(os.path.dirname(__file__), "mutants", "results.tsv"), "a")
-for m in M:
-    if sel and not any(x in m["name"] for x in sel):
-        continue
-    p = os.path.join("/repo", m["file"]); s = open(p).read()
-    if s.count(m["old"]) < 1:
-        print("SKIP (pattern not found):", m["name"]); continue
-    try:
-        open(p, "w").write(s.replace(m["old"], m["new"], m.get("count", 1)))
-        for pid in m["ids"]:
-            t0 = time.time()
-            r = sh("cd /verif && timeout 3000 ./check %s --tier quick" % pid)
-            verdict = "detected" if r.returncode == 1 else ("MISSED" if r.returncode == 0 else "error%d" % r.returncode)
-            first = next((l.strip() for l in r.stdout.splitlines() if "REPLAY-FAIL" in l or "Assertion" in l or "runtime error" in l or "Sanitizer" in l), "")
-            line = "%s\t%s\t%s\t%.0fs\t%s" % (m["name"], pid, verdict, time.time() - t0, first[:160])
-            print(line, flush=True); out.write(line + "\n"); out.flush()
-    finally:
-        sh("git -C /repo checkout -- .")
+# evidence files must describe runs on the unchanged tree only
+evidence_backup = tempfile.mkdtemp(prefix='verif_evid_')
+shutil.copytree('/verif/evidence', evidence_backup + '/e')
+try:
+    for m in M:
+        if sel and not any(x in m["name"] for x in sel):
+            continue
+        p = os.path.join("/repo", m["file"]); s = open(p).read()
+        if s.count(m["old"]) < 1:
+            print("SKIP (pattern not found):", m["name"]); continue
+        try:
+            open(p, "w").write(s.replace(m["old"], m["new"], m.get("count", 1)))
+            for pid in m["ids"]:
+                t0 = time.time()
+                r = sh("cd /verif && timeout 3000 ./check %s --tier quick" % pid)
+                verdict = "detected" if r.returncode == 1 else ("MISSED" if r.returncode == 0 else "error%d" % r.returncode)
+                first = next((l.strip() for l in r.stdout.splitlines() if "REPLAY-FAIL" in l or "Assertion" in l or "runtime error" in l or "Sanitizer" in l), "")
+                line = "%s\t%s\t%s\t%.0fs\t%s" % (m["name"], pid, verdict, time.time() - t0, first[:160])
+                print(line, flush=True); out.write(line + "\n"); out.flush()
+        finally:
+            sh("git -C /repo checkout -- .")
+finally:
+    shutil.rmtree("/verif/evidence", ignore_errors=True); shutil.copytree(evidence_backup + "/e", "/verif/evidence"); shutil.rmtree(evidence_backup, ignore_errors=True)
 assert sh("git -C /repo diff --quiet").returncode == 0
